@@ -16,6 +16,7 @@ var (
 	now      time.Duration
 	sleepers int
 	parked   int64 // total number of Sleep calls that have parked so far
+	kicks    int   // generation of Kick: a sleeper of an older generation returns early
 	scale    = 1
 )
 
@@ -71,6 +72,16 @@ func WaitParked(n int64, timeout time.Duration) int64 {
 	}
 }
 
+// Kick makes every goroutine parked in Sleep return at once, without moving the clock.  The driver uses it
+// right after the settings of a collection were replaced: the flusher goroutine of the OLD settings then
+// takes its next decision (it finds itself replaced and exits) instead of staying parked next to its successor.
+func Kick() {
+	mu.Lock()
+	kicks++
+	cond.Broadcast()
+	mu.Unlock()
+}
+
 func Sleep(d time.Duration) {
 	mu.Lock()
 	if !virtual {
@@ -82,7 +93,8 @@ func Sleep(d time.Duration) {
 	until := now + d
 	sleepers++
 	parked++
-	for virtual && now < until {
+	k := kicks
+	for virtual && now < until && kicks == k {
 		cond.Wait()
 	}
 	sleepers--
